@@ -263,3 +263,168 @@ def summarize(ctx, res, prop, related=()):
                     'distinct by sha1 of (records, methods); non-trivial = has a class with >= 2 direct bases or a method with >= 2 definitions',
             'samples': samples, 'input_distribution': res['dist'], 'legal_tuples_checked': tuples, 'erroring_tuples': err_tuples,
             'cases_with_model_impl_difference': ndiff, 'cases_failing_property': nfail, 'suite_wall_s': round(res.get('wall', 0), 1)}
+
+
+# --------------------------------------------------------------------------- canonical user-visible observations
+
+def user_view(reg, impl, mmap=None, dmap=None):
+    """what a user can observe: per (method, tuple) the outcome, per definition its next; indexes mapped back to a
+    reference numbering (mmap: method index -> reference index; dmap[mi]: definition index -> reference index)"""
+    mmap = mmap or {}; dmap = dmap or {}
+    def dname(mi, v):
+        m = re.match(r'^(ran )?d(\d+)$', v)
+        if m:
+            return (m.group(1) or '') + 'd%d' % dmap.get(mi, {}).get(int(m.group(2)), int(m.group(2)))
+        return v
+    out = {}
+    for k, v in impl.items():
+        t = k.split()
+        if t[0] in ('disp', 'call', 'resolve'):
+            mi = int(t[1])
+            out['%s %d %s' % (t[0], mmap.get(mi, mi), ' '.join(t[2:]))] = dname(mi, v)
+        elif t[0] == 'next':
+            mi = int(t[1]); di = int(t[2])
+            out['next %d %d' % (mmap.get(mi, mi), dmap.get(mi, {}).get(di, di))] = dname(mi, v)
+        elif t[0] == 'update':
+            out['update'] = v
+    return out
+
+
+def permute_registry(rng, reg):
+    """same registrations in another order: records, methods and each method's definitions shuffled"""
+    recs = list(reg['records']); rng.shuffle(recs)
+    mi_new = list(range(len(reg['methods']))); rng.shuffle(mi_new)     # new position -> old index
+    ms = []; dmap = {}
+    for newi, oldi in enumerate(mi_new):
+        m = reg['methods'][oldi]
+        di_new = list(range(len(m['defs']))); rng.shuffle(di_new)
+        ms.append({'shape': m['shape'], 'vp': m['vp'], 'defs': [m['defs'][j] for j in di_new]})
+        dmap[newi] = {newj: oldj for newj, oldj in enumerate(di_new)}
+    r2 = dict(reg); r2['records'] = recs; r2['methods'] = ms
+    return r2, {newi: oldi for newi, oldi in enumerate(mi_new)}, dmap
+
+
+def all_permutations_small(reg, limit=24):
+    """every order of records x definitions of the first method, when small enough (thorough tier)"""
+    import itertools
+    out = []
+    recs = reg['records']
+    if len(recs) > 4 or not reg['methods'] or len(reg['methods'][0]['defs']) > 3:
+        return out
+    for rp in itertools.permutations(range(len(recs))):
+        for dp in itertools.permutations(range(len(reg['methods'][0]['defs']))):
+            r2 = dict(reg); r2['records'] = [recs[i] for i in rp]
+            m0 = reg['methods'][0]
+            r2['methods'] = [{'shape': m0['shape'], 'vp': m0['vp'], 'defs': [m0['defs'][j] for j in dp]}] + reg['methods'][1:]
+            out.append((r2, {}, {0: {nj: oj for nj, oj in enumerate(dp)}}))
+            if len(out) >= limit:
+                return out
+    return out
+
+
+def _run_variants(binp, mdl, groups, pol_of):
+    """groups: list of (name, [variant registries]); runs every variant as its own case; returns name -> [parsed impl obs], [parsed model obs]"""
+    text = []; queries = []
+    for name, variants in groups:
+        for vi, reg in enumerate(variants):
+            p = pol_of(name, vi)
+            text.append(case_text('%s.%d' % (name, vi), reg, [p]))
+            queries.append(('%s.%d' % (name, vi), query_text('%s.%d' % (name, vi), reg)))
+    impl = {}; model = {}
+    B = 300
+    for b0 in range(0, len(text), B):
+        impl.update(run_h1(binp, ''.join(text[b0:b0 + B]), timeout=900))
+        model.update(run_model(mdl, queries[b0:b0 + B], timeout=900))
+    return impl, model
+
+
+def perm_suite(tier, seed):
+    """C06: each registry registered in several orders; user-visible observations compared ACROSS orders directly"""
+    def compute():
+        t0 = time.time()
+        binp, blog = corelib.h1_binary(); mdl, mlog = corelib.model_binary()
+        res = {'build': {'h1': bool(binp), 'model': bool(mdl), 'h1_log': '' if binp else blog[-1500:], 'model_log': '' if mdl else mlog[-1500:]},
+               'cases': [], 'dist': {}, 'n': 0}
+        if not binp or not mdl:
+            return res
+        rng = vlib.Rng(seed * 7919 + 6)
+        n = 150 if tier == 'quick' else 1500
+        groups = []; maps = {}
+        for c in load_corpus('core'):
+            if 'reg' in c and 'C06' in c.get('properties', []):
+                vs = [(c['reg'], {}, {})] + [permute_registry(rng, c['reg']) for _ in range(4)]
+                if c.get('reversed_defs'):
+                    r2 = dict(c['reg']); m0 = c['reg']['methods'][0]; nd = len(m0['defs'])
+                    r2['methods'] = [{'shape': m0['shape'], 'vp': m0['vp'], 'defs': list(reversed(m0['defs']))}] + c['reg']['methods'][1:]
+                    vs.append((r2, {}, {0: {j: nd - 1 - j for j in range(nd)}}))
+                groups.append((c['name'], [v[0] for v in vs])); maps[c['name']] = vs
+        for i in range(n):
+            small = (tier == 'thorough' and i % 5 == 0)
+            reg = gen_registry(rng, shapes=FULL_SHAPES, max_classes=4 if small else 9, max_methods=1 if small else 3)
+            vs = [(reg, {}, {})]
+            if small:
+                vs += all_permutations_small(reg)
+            k = 4 if tier == 'quick' else 6
+            vs += [permute_registry(rng, reg) for _ in range(k)]
+            name = 'p%d' % i
+            groups.append((name, [v[0] for v in vs])); maps[name] = vs
+        pols = ['vec', 'chk', 'vec', 'hash', 'vec', 'map']
+        pol_of = lambda name, vi: pols[int(name[1:]) % len(pols)] if re.match(r'^p\d+$', name) else 'vec'
+        impl, model = _run_variants(binp, mdl, groups, pol_of)
+        for name, variants in groups:
+            views = []; crashed = False; fails = []; ndiff = 0
+            for vi, reg in enumerate(variants):
+                key = '%s.%d' % (name, vi)
+                ir = impl.get(key, {'lines': [], 'crashed': True, 'stderr': 'no output'})
+                if ir['crashed']:
+                    crashed = True; fails.append('order %d: the library crashed: %s' % (vi, ir['stderr'][-300:])); continue
+                p = pol_of(name, vi)
+                iobs = parse_obs(split_by_policy(ir['lines']).get(p, []))
+                ev = evaluate(reg, p, iobs, parse_obs(model.get(key, [])))
+                ndiff += 1 if ev['ndiffs'] else 0
+                _, mmap, dmap = maps[name][vi]
+                views.append((vi, user_view(reg, iobs, mmap, dmap)))
+            fv = None
+            if views:
+                v0i, v0 = views[0]
+                for vi, v in views[1:]:
+                    for k in sorted(set(v0) | set(v)):
+                        if v0.get(k) != v.get(k):
+                            fails.append('registration order %d vs order %d: %s is %s vs %s' % (v0i, vi, k, v0.get(k), v.get(k)))
+                            if fv is None: fv = variants[vi]
+                            break
+            res['cases'].append({'name': name, 'reg': variants[0], 'orders': len(variants), 'hash': reg_hash(variants[0]), 'nontrivial': is_nontrivial(variants[0]),
+                                 'fails': fails[:5], 'ndiffs': ndiff, 'failing_variant': fv})
+            res['dist'][variants[0].get('kind', 'corpus')] = res['dist'].get(variants[0].get('kind', 'corpus'), 0) + 1
+        res['n'] = sum(len(v) for _, v in groups)
+        res['wall'] = time.time() - t0
+        return res
+    return cached('perm', tier, seed, compute)
+
+
+def summarize_groups(ctx, res, what):
+    """decision rule for the cross-variant suites (perm, presentations, rtti, history)"""
+    if not res['build']['h1']:
+        ctx.broken.append('harness H1 does not build against /repo: ' + res['build']['h1_log'][-400:])
+    if not res['build']['model']:
+        ctx.broken.append('model driver does not build: ' + res['build']['model_log'][-400:])
+    nfail = 0; ndiff = 0; nontriv = set(); samples = []
+    for e in res['cases']:
+        if e['nontrivial']: nontriv.add(e['hash'])
+        if e['fails']:
+            nfail += 1
+            if nfail <= 3:
+                ctx.violation('%s (case %s)' % (e['fails'][0], e['name']),
+                              {'case': e['name'], 'registry': e['reg'], 'other_variant': e.get('failing_variant'), 'failures': e['fails'],
+                               'replay_case': case_text(e['name'], e['reg'], ['vec']) + (case_text(e['name'] + '.b', e['failing_variant'], ['vec']) if e.get('failing_variant') else '')})
+        if e.get('ndiffs'):
+            ndiff += 1
+            if ndiff <= 2 and not e['fails']:
+                ctx.broken.append('correspondence: implementation and model differ on a variant of case %s' % e['name'])
+        if len(samples) < 2 and e['nontrivial']:
+            samples.append({'records': e['reg']['records'], 'methods': e['reg']['methods'], what: e.get('orders')})
+    return {'evaluations': res['n'], 'distinct_nontrivial': len(nontriv), 'groups': len(res['cases']),
+            'rule': 'each generated registry (tools/corelib.gen_registry) is run in several %s; evaluations counts registry variants run; distinct_nontrivial counts distinct base registries '
+                    '(sha1 of records+methods) with a class having >= 2 direct bases or a method with >= 2 definitions' % what,
+            'samples': samples, 'input_distribution': res['dist'], 'groups_failing_property': nfail, 'groups_with_model_impl_difference': ndiff,
+            'suite_wall_s': round(res.get('wall', 0), 1)}
